@@ -336,11 +336,25 @@ theorem C04_undefined_function_iff (path : String) (s : Schema) (r : Rule) (fn :
     hasError (callDiags path s r fn argc) = false ↔ CallWF s fn :=
   callDiags_noError_iff path s r fn argc
 
-/-- **`ENTITYresolve_expressions`** reports no ERROR for `e` ⇔ no overload, well-formed redeclarations, and rules whose calls
-    name functions and whose attribute references (`SELF.a`, bare `a`) are own or inherited attributes -/
-theorem C04_entity_expressions_iff (path : String) (s : Schema) (fuel : Nat) (e : Entity) :
-    hasError (entityPass5 path s fuel e) = false ↔ NoOverload s fuel e ∧ RedeclWF s fuel e ∧ RulesWF s fuel e :=
-  entityPass5_noError_iff path s fuel e
+/-- **`ENTITYresolve_expressions`** reports no ERROR for `e` ⇔ no overload, well-formed redeclarations, and expressions — domain
+    rules, DERIVE initialisers, aggregate bounds of attribute types — whose calls name functions and whose attribute references
+    (`SELF.a`, bare `a`) are own or inherited attributes; outside domain rules a bare name may also denote something of the
+    schema scope (`RuleItemWF`) -/
+theorem C04_entity_expressions_iff (path : String) (env : Env) (s : Schema) (fuel : Nat) (e : Entity) :
+    hasError (entityPass5 path env s fuel e) = false ↔ NoOverload s fuel e ∧ RedeclWF s fuel e ∧ RulesWF env s fuel e :=
+  entityPass5_noError_iff path env s fuel e
+
+/-- one expression item in entity scope, context by context (`r.isWhere` distinguishes a domain rule from a DERIVE initialiser /
+    aggregate bound: only the former must refer to SELF or an attribute) -/
+theorem C04_expression_item_iff (path : String) (env : Env) (s : Schema) (fuel : Nat) (e : Entity) (r : Rule) (it : RuleItem) :
+    hasError (ruleItemDiags path env s fuel e r it) = false ↔ RuleItemWF env s fuel e r it :=
+  ruleItem_noError_iff path env s fuel e r it
+
+/-- **function bodies, global RULEs, constants**: their expressions produce no ERROR ⇔ every call names a function and every
+    bare identifier is a parameter / local variable or known to the schema scope -/
+theorem C04_algorithm_expressions_iff (path : String) (env : Env) (s : Schema) :
+    hasError (algDiags path env s) = false ↔ ∀ f, Decl.func f ∈ s.decls → AlgWF env s f :=
+  alg_noError_iff path env s
 
 /-- **the cycle search terminates** with the fuel pass 4 gives it (number of declarations + 1), whatever the sibling order -/
 theorem C04_cycle_search_terminates (ret : Bool) (s : Schema) (n : String) :
@@ -417,7 +431,7 @@ theorem C04_imports_iff (f : File) (fb : Bool) (s : Schema) : hasError (pass2 f 
     walk (C06-17): inside it the walk is exact -/
 theorem C04_schema_error_iff (p : String) (env : Env) (s : Schema)
     (hlim : ∀ k, ResolveGen.subsuperDepthLimit = some k → s.decls.length < k) :
-    hasError (pass3 p env s ++ pass4 p env s ++ (pass5 p s).diags) = false ↔ SchemaWF env s :=
+    hasError (pass3 p env s ++ pass4 p env s ++ (pass5 p env s).diags) = false ↔ SchemaWF env s :=
   schema_noError_iff p env s hlim
 
 /-- **the front end accepts a file ⇔ the text is lexically clean and the file is well formed** (`FileWF`: the four
